@@ -31,7 +31,8 @@ def build_condition(C, mode, pv):
 
 def gen_params(r, mode, big):
     s = r.choice([1e-3, 1.0, 1.0, 1e3]) if big else 1.0
-    val = lambda: dy(r, -4, 4) * s
+    # exact zeros are admissible parameter values and a classic special case (`if x:` vs `if x is None:`)
+    val = lambda: 0.0 if r.random() < 0.12 else dy(r, -4, 4) * s
     if mode.startswith('IVP'):
         return {'t_0': dy(r, -3, 3), 'u_0': val(), 'u_0_prime': val()}, s
     if mode == 'DBVP':
@@ -167,6 +168,41 @@ def run_cases(ck, res, n_cases, n_interval):
                 if not enga.close(mu, pc[i], 10.0):
                     ck.broke('correspondence-broken', f'pyfront:{tname}', f'model {mu!r} impl {pc[i]!r} params {pv} point {pt} o={c}')
                     break
+    # ---- interior non-degeneracy for every mode, including the ones with extra forward passes: the coefficient
+    #      of the raw output at the evaluation point (values/slopes at the ends held fixed) must not vanish or
+    #      change sign anywhere strictly between the constrained points (dense grid + sign-change detection)
+    for ci in range(max(8, n_cases // 6)):
+        mode = ['DEBVP_dd', 'DEBVP_dn', 'DEBVP_nd', 'DEBVP_nn', 'DBVP', 'IVP_value', 'IVP_prime'][ci % 7]
+        pv, s = gen_params(r, mode, big=False)
+        cond = build_condition(C, mode, pv)
+        if mode.startswith('IVP'):
+            lo, hi = pv['t_0'], pv['t_0'] + r.choice([-1, 1]) * 3.0
+        elif mode == 'DBVP':
+            lo, hi = pv['t_0'], pv['t_1']
+        else:
+            lo, hi = pv['x_min'], pv['x_max']
+        grid = [lo + (hi - lo) * j / 48 for j in range(1, 48)]
+        x = enga.col(torch, grid)
+        M = Probe.affine(1, dy(r, -2, 2), [dy(r, -2, 2)])
+        extras = []
+        if mode in ('DEBVP_dn', 'DEBVP_nn', 'DEBVP_nd'):
+            x0 = pv['x_min'] * torch.ones_like(x, requires_grad=True)
+            x1 = pv['x_max'] * torch.ones_like(x, requires_grad=True)
+            extras = {'DEBVP_dn': [M.torch(x1), x1], 'DEBVP_nd': [M.torch(x0), x0], 'DEBVP_nn': [M.torch(x0), x0, M.torch(x1), x1]}[mode]
+        P = lambda cc: [float(v) for v in cond.parameterize(cc * torch.ones_like(x), x, *extras).detach().reshape(-1)]
+        p0, p1, p2 = P(0.0), P(1.0), P(2.0)
+        coef = [b - a for a, b in zip(p0, p1)]
+        ck.add_case((mode + '_interior', tuple(sorted(pv.items()))))
+        for i in range(len(grid)):
+            if not enga.close(p2[i], p0[i] + 2 * coef[i], 10.0 * (1 + abs(p0[i]))):
+                ck.fail(f'{mode}/not-affine', f'{mode}: not affine in the raw output at {grid[i]}', {'mode': mode, 'params': pv, 'point': grid[i]})
+                break
+        zero = [i for i in range(len(grid)) if abs(coef[i]) < 1e-9]
+        flips = [i for i in range(1, len(grid)) if coef[i - 1] * coef[i] < 0]
+        if zero or flips:
+            i = (zero or flips)[0]
+            ck.fail(f'{mode}/coefficient-vanishes', f'{mode}: the coefficient of the raw network output vanishes or changes sign at an interior point near {grid[i]} '
+                    f'(coefficients around it: {coef[max(0, i - 1):i + 2]})', {'mode': mode, 'params': pv, 'point': grid[i]})
     ck.extra['input_distribution'] = dist
     return goals
 
